@@ -64,6 +64,9 @@ def run(chk, repo: Repo):
                        "(a sampler must not use a structure flag / factor cached for an earlier parameter value)", floor=2)
     from ..cachecoh import cache_coherence
     cache_coherence(chk, repo, "C05-R6", ("cuqi/distribution/", "cuqi/implicitprior/", "cuqi/density/"))
+    chk.rule("C05-R7", "the triangular fast path of Gaussian._sample is selected by an exact structural test (scale-invariant), not a tolerance comparator", floor=1)
+    from ..gram import exact_shortcuts
+    exact_shortcuts(chk, repo, "C05-R7", only_methods=True)
 
 
 def _draw_sites(fn):
